@@ -83,6 +83,50 @@ Section Graph.
     add_edges (add_nodes g_empty (map (ren old new) (nodes g)))
               (map (fun e => (ren old new (fst e), ren old new (snd e))) (edges g)).
 
+  (* nx.edge_dfs(G, source, orientation='reverse'), the sources of the yielded edges (WorkflowBase.
+     get_upstream_tasks): a stack; every node gets an iterator over its in-edges when it is first on top;
+     an edge is yielded when taken from the iterator of the top node, and its source is pushed.
+     [its] = the iterators created so far (what is left of them). *)
+  Fixpoint it_get (its : list (A * list A)) (n : A) : option (list A) :=
+    match its with
+    | [] => None
+    | (m, l) :: tl => if eqb n m then Some l else it_get tl n
+    end.
+  Fixpoint it_set (its : list (A * list A)) (n : A) (l : list A) : list (A * list A) :=
+    match its with
+    | [] => [(n, l)]
+    | (m, l') :: tl => if eqb n m then (m, l) :: tl else (m, l') :: it_set tl n l
+    end.
+  Fixpoint edge_dfs_rev (fuel : nat) (g : graph) (stack : list A) (its : list (A * list A)) : list A :=
+    match fuel with
+    | 0 => []
+    | S f =>
+        match stack with
+        | [] => []
+        | cur :: below =>
+            let its1 := match it_get its cur with Some _ => its | None => it_set its cur (pred g cur) end in
+            match it_get its1 cur with
+            | Some (u :: rest) => u :: edge_dfs_rev f g (u :: stack) (it_set its1 cur rest)
+            | _ => edge_dfs_rev f g below its1
+            end
+        end
+    end.
+  Definition upstream (g : graph) (n : A) : list A :=
+    if has_node g n then edge_dfs_rev (2 * length (edges g) + 2) g [n] [] else [].
+
+  (* strict ancestors by saturation: the specification of get_upstream_tasks as a set *)
+  Fixpoint ancestors_from (fuel : nat) (g : graph) (frontier seen : list A) : list A :=
+    match fuel with
+    | 0 => seen
+    | S f =>
+        let new := filter (fun x => negb (mem x seen)) (flat_map (pred g) frontier) in
+        match new with
+        | [] => seen
+        | _ => ancestors_from f g new (fold_left snoc_new new seen)
+        end
+    end.
+  Definition ancestors (g : graph) (n : A) : list A := ancestors_from (length (nodes g)) g [n] [].
+
   Definition out_deg0 (g : graph) (n : A) : bool := match succ g n with [] => true | _ => false end.
   Definition in_deg0 (g : graph) (n : A) : bool := match pred g n with [] => true | _ => false end.
   Definition output_nodes (g : graph) : list A := filter (out_deg0 g) (nodes g).
@@ -143,7 +187,8 @@ Inductive sval : Type :=
 | STuple (l : list sval)
 | SList (l : list sval)
 | SDict (ks vs : list sval)     (* a dict: keys and values in item order *)
-| SLit (v : sval).              (* a dask.core.literal(v) object: callable, literal(v)() = v *)
+| SLit (v : sval)               (* a dask.core.literal(v) object: callable, literal(v)() = v *)
+| SFut (v : sval).              (* a distributed Future made by client.scatter(v): the scheduler hands v to the task *)
 
 Fixpoint sval_eqb (a b : sval) : bool :=
   let fix go (l m : list sval) : bool :=
@@ -160,6 +205,7 @@ Fixpoint sval_eqb (a b : sval) : bool :=
   | SList l, SList m => go l m
   | SDict k1 v1, SDict k2 v2 => go k1 k2 && go v1 v2
   | SLit x, SLit y => sval_eqb x y
+  | SFut x, SFut y => sval_eqb x y
   | _, _ => false
   end.
 
@@ -235,6 +281,12 @@ Definition exec_prepare (g : tgraph) (ctx : sval) (next : positive) : tgraph :=
   let st := exec_copies g next in
   workflow_of (insert_context (fst st) ctx (snd st)).
 
+(* dispatchers/local_dask/call.py call_workflow(wf, unique_name, ctx): wb = WorkflowBuilder(wf);
+   insert_context(wb, ctx); wf = Workflow(wb); dsk = wf.as_dask_dict(); dsk[unique_name] = dsk.pop('results');
+   optimize; client.get(dsk, unique_name) *)
+Definition call_prepare (g : tgraph) (ctx : sval) (next : positive) : tgraph :=
+  workflow_of (insert_context (workflow_of g) ctx next).
+
 (* ---- Workflow.as_dask_dict ------------------------------------------------------------------ *)
 Definition results : positive := 1%positive.     (* the string 'results' *)
 
@@ -251,7 +303,7 @@ Fixpoint interpreted (keys : list positive) (a : sval) : bool :=
       match l with [] => false | x :: tl => interpreted keys x || any tl end in
   match a with
   | SStr s => memp s keys
-  | SAtom _ | SFun _ | SLit _ => false
+  | SAtom _ | SFun _ | SLit _ | SFut _ => false
   | STuple l => (match l with x :: _ => is_callable x | [] => false end) || any l
   | SList l => any l
   | SDict _ vs => any vs
@@ -296,7 +348,7 @@ Section Dask.
         end in
     match a with
     | SStr s => if memp s keys then (c s, []) else (a, [])
-    | SAtom _ | SFun _ | SLit _ | SDict _ _ => (a, [])
+    | SAtom _ | SFun _ | SLit _ | SDict _ _ | SFut _ => (a, [])
     | STuple l =>
         match l with
         | SFun f :: rest => let (vs, ev) := eval_list rest in (apply f vs, ev ++ [(f, vs)])
@@ -315,7 +367,7 @@ Section Dask.
         end in
     match a with
     | SStr s => if memp s keys then [s] else []
-    | SAtom _ | SFun _ | SLit _ | SDict _ _ => []
+    | SAtom _ | SFun _ | SLit _ | SDict _ _ | SFut _ => []
     | STuple l => deps_list l
     | SList l => deps_list l
     end.
@@ -327,7 +379,7 @@ Fixpoint has_key_string (keys : list positive) (a : sval) : bool :=
       match l with [] => false | x :: tl => has_key_string keys x || any tl end in
   match a with
   | SStr s => memp s keys
-  | SAtom _ | SFun _ | SLit _ | SDict _ _ => false
+  | SAtom _ | SFun _ | SLit _ | SDict _ _ | SFut _ => false
   | STuple l => any l
   | SList l => any l
   end.
@@ -336,9 +388,133 @@ Fixpoint has_call_tuple (a : sval) : bool :=
   let fix any (l : list sval) : bool :=
       match l with [] => false | x :: tl => has_call_tuple x || any tl end in
   match a with
-  | SStr _ | SAtom _ | SFun _ | SLit _ | SDict _ _ => false
+  | SStr _ | SAtom _ | SFun _ | SLit _ | SDict _ _ | SFut _ => false
   | STuple l => match l with SFun _ :: _ | SLit _ :: _ => true | _ => any l end
   | SList l => any l
+  end.
+
+(* ---- dispatchers/local_dask/optimize.py ------------------------------------------------------ *)
+(* _scatter_value: dict, int, str, float, bool, range, Future and callables stay; every other object is
+   replaced by client.scatter(value).  Atoms numbered from 2000 on stand for such objects (None, models,
+   the context, ...), smaller ones for numbers. *)
+Definition scatter_value (a : sval) : sval :=
+  match a with
+  | SAtom x => if Pos.leb 2000 x then SFut a else a
+  | _ => a
+  end.
+
+(* _scatter_computation: tuple -> (head, scattered rest...) (the empty tuple stays), list -> list of
+   scattered items, anything else -> _scatter_value *)
+Fixpoint scatter (a : sval) : sval :=
+  let fix go (l : list sval) : list sval :=
+      match l with [] => [] | x :: tl => scatter x :: go tl end in
+  match a with
+  | STuple l => match l with [] => a | h :: rest => STuple (h :: go rest) end
+  | SList l => SList (go l)
+  | _ => scatter_value a
+  end.
+
+(* what the distributed scheduler does with the futures in a task before it runs it (unpack_remotedata):
+   every future inside tuples, lists and dict values is replaced by its data *)
+Fixpoint unfut (a : sval) : sval :=
+  let fix go (l : list sval) : list sval :=
+      match l with [] => [] | x :: tl => unfut x :: go tl end in
+  match a with
+  | SFut v => v
+  | STuple l => STuple (go l)
+  | SList l => SList (go l)
+  | SDict ks vs => SDict ks (go vs)
+  | _ => a
+  end.
+
+Fixpoint no_fut (a : sval) : bool :=
+  let fix all (l : list sval) : bool :=
+      match l with [] => true | x :: tl => no_fut x && all tl end in
+  match a with
+  | SFut _ => false
+  | STuple l => all l
+  | SList l => all l
+  | SDict ks vs => all vs
+  | SLit v => true
+  | _ => true
+  end.
+
+Definition scatter_dsk (d : list (positive * sval)) : list (positive * sval) :=
+  map (fun kv => (fst kv, scatter (snd kv))) d.
+
+(* dask.core.subs(task, key, val): in a task, replace the arguments equal to [key], also inside nested
+   tasks and lists; outside a task only the value itself / list items *)
+Fixpoint subs (k : positive) (val : sval) (a : sval) : sval :=
+  let fix go (l : list sval) : list sval :=
+      match l with [] => [] | x :: tl => subs k val x :: go tl end in
+  match a with
+  | SStr s => if Pos.eqb s k then val else a
+  | STuple l => match l with
+                | h :: rest => if is_callable h then STuple (h :: go rest) else a
+                | [] => a
+                end
+  | SList l => SList (go l)
+  | _ => a
+  end.
+
+(* keys_in_tasks(keys, [task], as_list=True): the occurrences of keys that dask.optimization.fuse counts
+   (arguments of tasks, list items, dict values) *)
+Fixpoint key_occs (keys : list positive) (a : sval) : list positive :=
+  let fix go (l : list sval) : list positive :=
+      match l with [] => [] | x :: tl => key_occs keys x ++ go tl end in
+  match a with
+  | SStr s => if memp s keys then [s] else []
+  | STuple l => match l with
+                | h :: rest => if is_callable h then go rest else []
+                | [] => []
+                end
+  | SList l => go l
+  | SDict _ vs => go vs
+  | _ => []
+  end.
+
+(* what dask.optimization.fuse did, as a list of steps (the heuristics that choose them are dask's):
+   FInline c      the task of key c was substituted into its only dependent and removed
+   FAlias r a     the fused task of key r was stored under the new key a, r became an alias of a *)
+Inductive fstep := FInline (c : positive) | FAlias (r a : positive).
+
+Fixpoint dlookup0 (d : list (positive * sval)) (k : positive) : option sval :=
+  match d with
+  | [] => None
+  | (k', v) :: tl => if Pos.eqb k k' then Some v else dlookup0 tl k
+  end.
+
+Definition fuse_step (d : list (positive * sval)) (st : fstep) : list (positive * sval) :=
+  match st with
+  | FInline c =>
+      match dlookup0 d c with
+      | Some vc => map (fun kv => (fst kv, subs c vc (snd kv))) (filter (fun kv => negb (Pos.eqb (fst kv) c)) d)
+      | None => d
+      end
+  | FAlias r a =>
+      match dlookup0 d r with
+      | Some vr => map (fun kv => if Pos.eqb (fst kv) r then (r, SStr a) else kv) d ++ [(a, vr)]
+      | None => d
+      end
+  end.
+
+(* a step fuse may take: the inlined key occurs exactly once in the whole graph, its own value is a task;
+   an alias key is new *)
+Definition fuse_step_ok (d : list (positive * sval)) (st : fstep) : bool :=
+  let keys := map fst d in
+  match st with
+  | FInline c =>
+      memp c keys &&
+      (length (filter (Pos.eqb c) (flat_map (fun kv => key_occs keys (snd kv)) d)) =? 1) &&
+      match dlookup0 d c with Some (STuple (h :: _)) => is_callable h | _ => false end &&
+      negb (memp c (match dlookup0 d c with Some vc => key_occs keys vc | None => [] end))
+  | FAlias r a => memp r keys && negb (memp a keys)
+  end.
+
+Fixpoint fuse_steps (d : list (positive * sval)) (l : list fstep) : list (positive * sval) * bool :=
+  match l with
+  | [] => (d, true)
+  | st :: tl => let (d', ok) := fuse_steps (fuse_step d st) tl in (d', fuse_step_ok d st && ok)
   end.
 
 Fixpoint dlookup (d : dsk) (k : positive) : option sval :=
@@ -386,6 +562,10 @@ Section Exec.
     | None => (ROther, [])
     end.
   Definition dask_get (d : dsk) (k : positive) : result := fst (dask_get_log d k).
+
+  (* client.get(dsk, k) of the distributed scheduler: futures are replaced by their data first *)
+  Definition dask_get_dist_log (d : dsk) (k : positive) : result * list event :=
+    dask_get_log (map (fun kv => (fst kv, unfut (snd kv))) d) k.
 
   (* ============================================================================ 5. reference *)
   (* sequential evaluation: a task receives its static inputs followed by the results of its
